@@ -90,7 +90,15 @@ def rule_a_b(repo, chk):
             chk.ob('b', f.ref, 'the stored password is known to be not None when checkResponse() is evaluated', q is None, loc(f, c),
                    path=pat.path_lines(q) if q else None, discr='password-not-none')
             defs = [n for n in g.nodes if n.kind == 'stmt' and pv in Q.node_defs(n)]
-            ok = bool(defs) and all(('.get(' in src(n.ast.value) and "ah['username']" in src(n.ast.value)) or "(ah['username'])" in src(n.ast.value) for n in defs)
+            # the presented user name: `ah['username']`, or a local that is only ever bound to it
+            unames = ["ah['username']"]
+            for w in walk_no_defs(f.node):
+                if isinstance(w, ast.Assign) and len(w.targets) == 1 and isinstance(w.targets[0], ast.Name) and src(w.value) == "ah['username']":
+                    x = w.targets[0].id
+                    if sum(1 for y in walk_no_defs(f.node) if isinstance(y, ast.Name) and isinstance(y.ctx, ast.Store) and y.id == x) == 1:
+                        unames.append(x)
+            ok = bool(defs) and all(isinstance(n.ast, ast.Assign) and (pat.is_const(n.ast.value, None) or any(
+                ('.get(' in src(n.ast.value) and f'.get({u},' in src(n.ast.value).replace(', ', ',') + ',') or src(n.ast.value).endswith(f'({u})') for u in unames)) for n in defs)
             chk.ob('b', f.ref, 'the password is looked up for the presented user name only', ok, loc(f, c), detail='; '.join(n.text[:50] for n in defs),
                    discr='password-lookup')
     # nothing raised while examining what the client sent can leave check_auth (an exception is not a refusal: in a request filter it skips
@@ -236,10 +244,17 @@ def rule_d(repo, chk):
     for n in g.nodes:
         if n.kind == 'stmt' and isinstance(n.ast, ast.Assign) and src(n.ast.value).replace(' ', '') == f"{sid}.split('/',1)[1]":
             uservar = src(n.ast.targets[0])
+    sepvar = None
+    for n in g.nodes:
+        # `_, separator, owner = sid.partition('/')`: owner is what follows the first '/', separator is non-empty iff there is one
+        if n.kind == 'stmt' and isinstance(n.ast, ast.Assign) and src(n.ast.value).replace(' ', '') == f"{sid}.partition('/')" and isinstance(n.ast.targets[0], ast.Tuple) \
+                and len(n.ast.targets[0].elts) == 3 and all(isinstance(x, ast.Name) for x in n.ast.targets[0].elts):
+            sepvar, uservar = n.ast.targets[0].elts[1].id, n.ast.targets[0].elts[2].id
     for r in rets:
         val = src(r.ast.value) if r.ast.value is not None else 'None'
         if val == sid:
-            q1 = pat.guarded_by(g, r, pat.test_edge(lambda tt, pol: pat.fact_matches(pat.compare_fact(tt, pol), "'/'", ('in',), sid)))
+            q1 = pat.guarded_by(g, r, pat.test_edge(lambda tt, pol: pat.fact_matches(pat.compare_fact(tt, pol), "'/'", ('in',), sid) or
+                                                    (sepvar is not None and ((pol == 'T' and src(tt) == sepvar) or pat.fact_matches(pat.compare_fact(tt, pol), sepvar, ('==',), "'/'")))))
             q2 = pat.guarded_by(g, r, pat.test_edge(lambda tt, pol: uservar is not None and pat.fact_matches(pat.compare_fact(tt, pol), uservar, ('==',), f'who({req})')))
             chk.ob('d', v.ref, 'the presented session id is returned only if it carries a fingerprint equal to the fingerprint of the requesting client',
                    q1 is None and q2 is None, loc(v, r.ast), path=pat.path_lines(q1 or q2) if (q1 or q2) else None, discr='presented-id-fingerprint')
@@ -329,6 +344,8 @@ def rule_e(repo, chk):
            detail='; '.join(src(n) for n in st), discr='gateways-stored')
     h = repo.func(WEB_VHOSTS, 'VirtualHosts._on_request')
     chk.touch(h)
+    from .common import normalised
+    h = normalised(h)       # `headers = request.headers`, `gateways = self.trusted_gateways`: nothing in the handler re-binds what they name
     g = h.cfg()
     req = h.params[2]
     # alias of request.headers.get
@@ -352,10 +369,18 @@ def rule_e(repo, chk):
         if isinstance(c_.func, ast.Attribute) and c_.func.attr == 'get' and src(c_.func.value) == 'self.domains' and c_.args and isinstance(c_.args[0], ast.Name):
             dv_ = c_.args[0].id
     dom = [n for n in g.nodes if n.kind == 'stmt' and isinstance(n.ast, ast.Assign) and src(n.ast.targets[0]) == dv_]
-    ok = any("'Host'" in src(n.ast.value) for n in dom)
+    def host_value(n, e, depth=0):
+        # the Host header itself, possibly through plain copies
+        if isinstance(e, ast.Name) and depth < 4:
+            defs = Q.reaching_defs(g, n, e.id)
+            return bool(defs) and all(d.kind == 'stmt' and isinstance(d.ast, ast.Assign) and len(d.ast.targets) == 1 and isinstance(d.ast.targets[0], ast.Name)
+                                      and host_value(d, d.ast.value, depth + 1) for d in defs)
+        return isinstance(e, ast.Call) and call_name(e) in getters | {f'{req}.headers.get'} and bool(e.args) and isinstance(e.args[0], ast.Constant) and e.args[0].value == 'Host' \
+            and 'orwarded' not in src(e)
+    ok = any(host_value(n, n.ast.value) for n in dom)
     chk.ob('e', h.ref, 'without a trusted forwarded host the Host header decides the virtual host', ok, loc(h, h.node), discr='host-default')
     for n in dom:
-        if "'Host'" in src(n.ast.value):
+        if host_value(n, n.ast.value):
             continue
         q = pat.guarded_by(g, n, trusted)
         chk.ob('e', h.ref, 'the routing domain is overridden only under the gateway test', q is None, loc(h, n.ast), discr='override-guard')
